@@ -41,7 +41,7 @@ pub struct Req { pub at: u64, pub vect: u8, pub prio: u8, pub dev: usize, pub he
 #[derive(Default)]
 struct Mon { taken: u64, gated: u64, lost_arbitration: u64, max_nest: u64, nest: Vec<u8>, violation: Option<(String, String)>, boundaries: u64, trace_pcs: Vec<u16>, entries: Vec<(u64, u8, u8)> }
 
-struct Setup { ign: bool, prog: UserProg, isrs: BTreeMap<u8, String>, real: bool, prio0: u8, kbd: Vec<u8>, kbd_ie: bool, timer: Option<(u64, u32, u32, u8, u8)> }
+struct Setup { ign: bool, over: u8, no_stack: bool, prog: UserProg, isrs: BTreeMap<u8, String>, real: bool, prio0: u8, kbd: Vec<u8>, kbd_ie: bool, timer: Option<(u64, u32, u32, u8, u8)> }
 
 fn build_sim(su: &Setup) -> Option<(Simulator, BufferedDisplay, BufferedKeyboard)> {
     let flags = SimFlags { use_real_traps: su.real, ignore_privilege: su.ign, machine_init: MachineInitStrategy::Known { value: 0x2222 }, ..Default::default() };
@@ -64,10 +64,10 @@ fn build_sim(su: &Setup) -> Option<(Simulator, BufferedDisplay, BufferedKeyboard
     Some((sim, ds, kb))
 }
 
-struct Final { regs: [u16; 8], psr: u16, ssp: u16, user_mem: Vec<u16>, display: Vec<u8>, result: String, steps: u64 }
+struct Final { regs: [u16; 8], regs_init: [bool; 8], psr: u16, ssp: u16, user_mem: Vec<u16>, display: Vec<u8>, result: String, steps: u64 }
 fn finalize(sim: &mut Simulator, ds: &BufferedDisplay, result: String, steps: u64) -> Final {
     let s = snap(sim);
-    Final { regs: std::array::from_fn(|i| sim.reg_file[reg(i)].get()), psr: s.psr, ssp: s.ssp, user_mem: (0x3000..0xFE00u16).map(|a| sim.mem[a].get()).collect(), display: ds.get_buffer().read().unwrap().clone(), result, steps }
+    Final { regs: std::array::from_fn(|i| sim.reg_file[reg(i)].get()), regs_init: std::array::from_fn(|i| sim.reg_file[reg(i)].is_init()), psr: s.psr, ssp: s.ssp, user_mem: (0x3000..0xFE00u16).map(|a| sim.mem[a].get()).collect(), display: ds.get_buffer().read().unwrap().clone(), result, steps }
 }
 
 const STEP_BOUND: u64 = 60_000;
@@ -146,7 +146,7 @@ fn run_monitored(su: &Setup, reqs: &[Req]) -> Option<(Final, Mon)> {
                 if pend[i].at <= k {
                     let r = pend[i].clone();
                     if !presented.iter().any(|x: &(u8, u8)| x.1 == r.prio) && cells[r.dev].lock().unwrap().is_none() {
-                        *cells[r.dev].lock().unwrap() = Some((r.vect, r.prio)); presented.push((r.vect, r.prio));
+                        *cells[r.dev].lock().unwrap() = Some((r.vect, if r.prio == 7 { 7 + su.over } else { r.prio })); presented.push((r.vect, r.prio));
                         // one-shot requests are consumed by being presented; held ones stay until they can be taken
                         if !r.held || r.prio > cur_prio { pend.remove(i); continue; }
                     }
@@ -171,6 +171,7 @@ fn run_monitored(su: &Setup, reqs: &[Req]) -> Option<(Final, Mon)> {
 fn compare_final(u: &Final, i: &Final) -> Option<(String, String)> {
     if i.result != u.result { return Some(("outcome".into(), format!("interrupted run ended with {}, uninterrupted with {}", i.result, u.result))); }
     for k in 0..8 { if u.regs[k] != i.regs[k] { return Some((if k == 6 { "stack-pointer".into() } else { "register".into() }, format!("R{k} = x{:04X}, uninterrupted x{:04X}", i.regs[k], u.regs[k]))); } }
+    for k in 0..8 { if u.regs_init[k] != i.regs_init[k] { return Some(("register-initialization".into(), format!("R{k} is {} after the interrupted run, {} after the uninterrupted one", if i.regs_init[k] { "initialized" } else { "uninitialized" }, if u.regs_init[k] { "initialized" } else { "uninitialized" }))); } }
     if u.psr != i.psr { return Some((if u.psr & 7 != i.psr & 7 { "condition-codes".into() } else { "psr".into() }, format!("PSR x{:04X}, uninterrupted x{:04X}", i.psr, u.psr))); }
     if u.ssp != i.ssp { return Some(("saved-sp".into(), format!("saved SP x{:04X}, uninterrupted x{:04X}", i.ssp, u.ssp))); }
     if u.display != i.display { return Some(("output".into(), format!("display {:?}, uninterrupted {:?}", String::from_utf8_lossy(&i.display), String::from_utf8_lossy(&u.display)))); }
@@ -179,7 +180,11 @@ fn compare_final(u: &Final, i: &Final) -> Option<(String, String)> {
 }
 
 fn make_setup(rng: &mut Rng, small: bool, kbd_isr: bool) -> Setup {
-    let opts = ProgOpts { io: true, input: false, faults: false, calls: true, max_blocks: if small { 2 } else { 6 }, unbalanced: false, ..ProgOpts::default() };
+    // a quarter of the programs never touch R6 (it is still uninitialized when interrupts arrive); in half of the setups devices
+    // present priority 7 as a larger number (device priorities above 7 count as 7)
+    let no_stack = rng.chance(1, 4);
+    let over = if rng.bool() { 1 + rng.below(9) as u8 } else { 0 };
+    let opts = ProgOpts { io: true, input: false, faults: false, calls: true, max_blocks: if small { 2 } else { 6 }, unbalanced: false, no_stack, ..ProgOpts::default() };
     let prog = gen_user_prog(rng, &opts);
     let mut isrs = BTreeMap::new();
     let nv = 1 + rng.usize(3);
@@ -191,11 +196,11 @@ fn make_setup(rng: &mut Rng, small: bool, kbd_isr: bool) -> Setup {
         isrs.insert(v, gen_isr(rng, 0x1000 + 0x80 * i as u16, false));
     }
     if kbd_isr { isrs.insert(0x80, gen_isr(rng, 0x1800, true)); }
-    Setup { ign: rng.chance(1, 4), prog, isrs, real: rng.bool(), prio0: 0, kbd: vec![], kbd_ie: false, timer: None }
+    Setup { ign: rng.chance(1, 4), over, no_stack, prog, isrs, real: rng.bool(), prio0: 0, kbd: vec![], kbd_ie: false, timer: None }
 }
 
 fn case_json(su: &Setup, reqs: &[Req]) -> Json {
-    Json::obj().set("program", su.prog.text.as_str()).set("real_traps", su.real).set("ignore_privilege", su.ign).set("initial_priority", su.prio0 as u64)
+    Json::obj().set("program", su.prog.text.as_str()).set("real_traps", su.real).set("ignore_privilege", su.ign).set("priority_7_presented_as", 7 + su.over as u64).set("program_never_touches_R6", su.no_stack).set("initial_priority", su.prio0 as u64)
         .set("isrs", Json::Arr(su.isrs.iter().map(|(v, t)| Json::obj().set("vector", format!("x{v:02X}")).set("source", t.as_str())).collect()))
         .set("schedule", Json::Arr(reqs.iter().map(|r| Json::from(format!("boundary {} dev{} (x{:02X}, p{}){}", r.at, r.dev, r.vect, r.prio, if r.held { " held" } else { "" }))).collect()))
         .set("kbd", format!("{:?}", su.kbd)).set("kbd_ie", su.kbd_ie).set("timer", format!("{:?}", su.timer))
